@@ -38,6 +38,14 @@ def iter_shape(ex, node: ast.For, st):
         if isinstance(d, VOpt):
             ex.need(st, z3.Not(d.isnone), "AttributeError", node, "None." + it.func.attr)
             d = d.val
+        from .sorts import VBDict
+        if isinstance(d, VBDict) and it.func.attr == "items":
+            keys = VSeq(d.keys, S.Ballot)
+
+            def bindb(s2, k, el):
+                idx = k if not isinstance(k, int) else z3.IntVal(k)
+                ex.store(tgt, VTup([el, VNum(d.vals[idx], "real")]), s2)
+            return keys, bindb
         if not isinstance(d, VDict):
             raise OutOfReach("items() of non-dict")
         keys, e = ex.enum_of(st, d.keys)
@@ -254,6 +262,9 @@ def do_for(ex, node: ast.For, st: State):
         ex.card_of(sh, el.term)
     bind(sh, k, el)
     sh.env["_k"] = VNum(k, "int")  # ghost: iterations completed (visible to hint clauses)
+    for nme in mod:  # ghost: values at the head of the iteration (visible to hint clauses)
+        if nme in sh.env and sh.env[nme] is not UNBOUND:
+            sh.env["_pre_" + nme] = sh.env[nme]
     for kind, s2, payload in ex.exec_block(node.body, sh):
         if kind in ("fall", "continue"):
             e2 = dict(ext)
